@@ -885,27 +885,27 @@ impl LineRow {
             return Ok(());
         }
 
-        let operation_advance = Wrapping(operation_advance);
-
-        let minimum_instruction_length = u64::from(header.line_encoding.minimum_instruction_length);
-        let minimum_instruction_length = Wrapping(minimum_instruction_length);
-
+        // Use 128-bit arithmetic so that nothing wraps before the address size check.
+        let operation_advance = u128::from(operation_advance);
+        let minimum_instruction_length =
+            u128::from(header.line_encoding.minimum_instruction_length);
         let maximum_operations_per_instruction =
-            u64::from(header.line_encoding.maximum_operations_per_instruction);
-        let maximum_operations_per_instruction = Wrapping(maximum_operations_per_instruction);
+            u128::from(header.line_encoding.maximum_operations_per_instruction);
 
-        let address_advance = if maximum_operations_per_instruction.0 == 1 {
+        let address_advance = if maximum_operations_per_instruction == 1 {
             self.op_index.0 = 0;
             minimum_instruction_length * operation_advance
         } else {
-            let op_index_with_advance = self.op_index + operation_advance;
-            self.op_index = op_index_with_advance % maximum_operations_per_instruction;
+            let op_index_with_advance = u128::from(self.op_index.0) + operation_advance;
+            self.op_index.0 = (op_index_with_advance % maximum_operations_per_instruction) as u64;
             minimum_instruction_length
                 * (op_index_with_advance / maximum_operations_per_instruction)
         };
+        let address_advance =
+            u64::try_from(address_advance).map_err(|_| Error::AddressOverflow)?;
         self.address = self
             .address
-            .add_sized(address_advance.0, header.address_size())?;
+            .add_sized(address_advance, header.address_size())?;
         Ok(())
     }
 
@@ -1441,8 +1441,8 @@ where
             // We just finished a sequence.
             sequences.push(LineSequence {
                 // In theory one could have multiple DW_LNE_end_sequence instructions
-                // in a row.
-                start: sequence_start_addr.unwrap_or(0),
+                // in a row. Such a sequence is empty, and starts where it ends.
+                start: sequence_start_addr.unwrap_or(sequence_end_addr),
                 end: sequence_end_addr,
                 instructions: instructions.remove_trailing(&rows.instructions)?,
             });
